@@ -187,7 +187,7 @@ FrameEnd ==
             /\ UNCHANGED buf
             /\ last' = [act |-> "FrameEnd", s |-> s, res |-> "ok"]
   /\ fh' = FhIdle
-  /\ UNCHANGED <<reg, lfin, closed, nreads, nframes, nsent, ghost>>
+  /\ UNCHANGED <<reg, pend, lfin, closed, nreads, nframes, nsent, ghost>>
 
 \* bookkeeping of a Read result handed to the caller
 GotData(s, k) == /\ delivered' = [delivered EXCEPT ![s] = Append(@, k)] /\ UNCHANGED lost
@@ -206,7 +206,7 @@ Read(s) ==
               /\ last' = [act |-> "Read", s |-> s, res |-> "eof", chunk |-> 0]
          ELSE /\ rd' = [rd EXCEPT ![s] = Blocked] /\ UNCHANGED <<buf, delivered, lost>>
               /\ last' = [act |-> "Read", s |-> s, res |-> "block", chunk |-> 0]
-  /\ UNCHANGED <<st, reg, lfin, rfin, closed, fh, nframes, nsent, arrived, finSeen>>
+  /\ UNCHANGED <<st, reg, pend, lfin, rfin, closed, fh, nframes, nsent, arrived, finSeen>>
 
 (* the woken reader returns *)
 ReadReturn(s) ==
@@ -215,7 +215,7 @@ ReadReturn(s) ==
   /\ IF rd[s].eof
        THEN GotEOF(s, rd[s].torn) /\ last' = [act |-> "ReadReturn", s |-> s, res |-> "eof", chunk |-> 0]
        ELSE GotData(s, rd[s].chunk) /\ last' = [act |-> "ReadReturn", s |-> s, res |-> "data", chunk |-> rd[s].chunk]
-  /\ UNCHANGED <<st, reg, buf, lfin, rfin, closed, nreads, fh, nframes, nsent, arrived, finSeen>>
+  /\ UNCHANGED <<st, reg, pend, buf, lfin, rfin, closed, nreads, fh, nframes, nsent, arrived, finSeen>>
 
 (* the guard of every writer: Stream.CanWrite *)
 Write(s) ==
@@ -235,32 +235,37 @@ CloseWrite(s) ==
                                     [] @ = "HalfClosedRemote" ->
                                          IF "DevHalfCloseReopens" \in Dev THEN "HalfClosedLocal" ELSE "Closed"
                                     [] OTHER -> @]
-  /\ UNCHANGED <<reg, buf, rfin, closed, rd, nreads, fh, nframes, nsent, ghost>>
+  /\ UNCHANGED <<reg, pend, buf, rfin, closed, rd, nreads, fh, nframes, nsent, ghost>>
   /\ last' = [act |-> "CloseWrite", s |-> s, res |-> "ok"]
 
 \* streams torn down by a close / reset addressed to s
 Victims(s) == IF "DevCloseTearsAll" \in Dev THEN {x \in Streams : reg[x]} ELSE {s}
 
-(* Manager.HandleStreamClose / RemoveStream (kind = "close"), HandleStreamReset (kind = "reset") *)
+(* Manager.HandleStreamClose / RemoveStream (kind = "close"), HandleStreamReset (kind = "reset"), addressed to an   *)
+(* established stream or to any other id                                                                           *)
 Teardown(s, kind) ==
-  /\ IF reg[s]
+  /\ IF Known(s)
        THEN LET V == Victims(s) IN
             /\ reg' = [x \in Streams |-> reg[x] /\ x \notin V]
             /\ st' = [x \in Streams |-> IF x \in V THEN "Closed" ELSE st[x]]
             /\ closed' = [x \in Streams |-> closed[x] \/ x \in V]
             /\ rd' = [x \in Streams |-> IF x \in V /\ rd[x].pc = "blocked" THEN ReadyEOF(TRUE) ELSE rd[x]]
+            /\ UNCHANGED pend
             \* callbacks: onStreamClose (and onReset for a reset) are invoked for exactly the victims
             /\ last' = [act |-> IF kind = "close" THEN "Close" ELSE "Reset", s |-> s, res |-> "ok",
                         torn |-> [x \in Streams |-> x \in V]]
        ELSE /\ UNCHANGED <<reg, st, closed, rd>>
+            \* not established: nothing happens - in particular the pending open of another stream stays
+            /\ pend' = IF "DevResetCancelsPending" \in Dev /\ kind = "reset" /\ s = "x" THEN FALSE ELSE pend
             /\ last' = [act |-> IF kind = "close" THEN "Close" ELSE "Reset", s |-> s, res |-> "noop",
                         torn |-> [x \in Streams |-> FALSE]]
   /\ UNCHANGED <<buf, lfin, rfin, nreads, fh, nframes, nsent, ghost>>
 
 Next ==
   \/ \E s \in Streams : OpenAck(s) \/ Read(s) \/ ReadReturn(s) \/ Write(s) \/ CloseWrite(s)
-                        \/ Teardown(s, "close") \/ Teardown(s, "reset")
-  \/ \E s \in Streams, hd \in BOOLEAN, fin \in BOOLEAN : FrameBegin(s, hd, fin)
+  \/ \E kind \in {"err", "timeout", "cancel"} : OpenFail(kind)
+  \/ \E s \in Targets : Teardown(s, "close") \/ Teardown(s, "reset")
+  \/ \E s \in Targets, hd \in BOOLEAN, fin \in BOOLEAN : FrameBegin(s, hd, fin)
   \/ FrameEnd
 
 Spec == Init /\ [][Next]_vars
@@ -282,17 +287,20 @@ WritesRefused == [][(last'.act = "Write" /\ lfin[last'.s]) => last'.res = "refus
 ReadsContinue == [][(last'.act = "Read" /\ buf[last'.s] # <<>>) => last'.res = "data"]_vars
 \* a close / reset touches only the addressed stream
 PerStream(x) == <<st[x], reg[x], buf[x], lfin[x], rfin[x], closed[x], rd[x]>>
-Isolation == [][\A s \in Streams : (last'.act \in {"Close", "Reset"} /\ last'.s = s)
-                   => (PerStream(Other(s))' = PerStream(Other(s)) /\ ~last'.torn[Other(s)])]_vars
+\* ... neither another established stream nor another stream's pending open (a close / reset never completes or fails
+\* an open: the pending table is untouched by it)
+Isolation == [][\A s \in Targets : (last'.act \in {"Close", "Reset"} /\ last'.s = s)
+                   => /\ \A o \in Streams \ {s} : PerStream(o)' = PerStream(o) /\ ~last'.torn[o]
+                      /\ pend' = pend]_vars
 \* the state moves only along the documented transitions
 DocumentedEdges == [][\A s \in Streams : st'[s] # st[s] => <<st[s], st'[s]>> \in DocEdges]_vars
 
 (* ---- edge emission for the replay binding ------------------------------ *)
 \* compact (positional) encoding of a state, unpacked by checks/_stream.py and harness/stream/stream_test.go:
 \* per stream <<st, reg, buf, lfin, rfin, closed, rd.pc, rd.chunk, rd.eof, rd.torn, nreads, nsent,
-\*              arrived, finSeen, delivered, lost>>, handler <<pc, s, k, fin>>, nframes
+\*              arrived, finSeen, delivered, lost>>, handler <<pc, s, k, fin>>, nframes, pend
 PackS(x) == <<st[x], reg[x], buf[x], lfin[x], rfin[x], closed[x], rd[x].pc, rd[x].chunk, rd[x].eof, rd[x].torn,
               nreads[x], nsent[x], arrived[x], finSeen[x], delivered[x], lost[x]>>
-Packed == [a |-> PackS("a"), b |-> PackS("b"), fh |-> <<fh.pc, fh.s, fh.k, fh.fin>>, nf |-> nframes]
+Packed == [a |-> PackS("a"), b |-> PackS("b"), fh |-> <<fh.pc, fh.s, fh.k, fh.fin>>, nf |-> nframes, pend |-> pend]
 EmitEdge == Emit => PrintT("EDGE " \o ToJson([s |-> Packed, a |-> last', t |-> Packed']))
 =============================================================================
